@@ -85,7 +85,7 @@ void read_crs(
     if (row_beg < 0) row_beg = 0;
     if (row_end < 0) row_end = n;
 
-    precondition(row_beg >= 0 && row_end <= static_cast<ptrdiff_t>(n),
+    precondition(row_beg >= 0 && row_beg <= row_end && row_end <= static_cast<ptrdiff_t>(n),
             "Wrong subset of rows is requested");
 
     ptrdiff_t chunk = row_end - row_beg;
@@ -100,6 +100,14 @@ void read_crs(
     f.seekg(ptr_beg + n * sizeof(Ptr));
     precondition(read(f, nnz), "File I/O error");
 
+    // Do not trust the stored row pointers: a damaged file must not make us
+    // (or the users of the matrix) read out of bounds.
+    precondition(ptr.front() >= 0 && ptr.back() <= nnz,
+            "Corrupted file: wrong row pointers");
+    for(ptrdiff_t i = 0; i < chunk; ++i)
+        precondition(ptr[i] <= ptr[i + 1],
+                "Corrupted file: row pointers are not monotone");
+
     SizeT nnz_beg = ptr.front();
     if (nnz_beg) for(auto &p : ptr) p -= nnz_beg;
 
@@ -109,6 +117,11 @@ void read_crs(
     size_t col_beg = ptr_beg + (n + 1) * sizeof(Ptr);
     f.seekg(col_beg + nnz_beg * sizeof(Col));
     precondition(read(f, col), "File I/O error");
+
+    // The format does not store the number of columns,
+    // so this is all that may be checked here:
+    for(const Col &c : col)
+        precondition(c >= 0, "Corrupted file: negative column number");
 
     f.seekg(col_beg + nnz * sizeof(Col) + nnz_beg * sizeof(Val));
     precondition(read(f, val), "File I/O error");
@@ -144,7 +157,12 @@ void read_dense(const std::string &fname,
     if (row_beg < 0) row_beg = 0;
     if (row_end < 0) row_end = n;
 
-    precondition(row_beg >= 0 && row_end <= static_cast<ptrdiff_t>(n),
+    // Do not trust the stored sizes: n * m values should be addressable.
+    precondition(static_cast<ptrdiff_t>(n) >= 0 && static_cast<ptrdiff_t>(m) >= 0 &&
+            (m == 0 || static_cast<size_t>(n) <= v.max_size() / static_cast<size_t>(m)),
+            "Corrupted file: wrong matrix sizes");
+
+    precondition(row_beg >= 0 && row_beg <= row_end && row_end <= static_cast<ptrdiff_t>(n),
             "Wrong subset of rows is requested");
 
     ptrdiff_t chunk = row_end - row_beg;
